@@ -14,6 +14,11 @@ KEEP = {"OUT": None, "CONN": ["state", "live", "dwr"], "PEER": ["reason"]}
 T0 = 1700000000
 
 
+def simmod_build(msg: str) -> bytes:
+    import sim as simmod
+    return simmod.build_msg(msg)
+
+
 def cfg_line(idle, dwa, p_idle="-", p_dwa="-", persistent=0, wait=99):
     return (f"NODE host=node.local;realm=realm.local;idle={idle};dwa={dwa};cer=50;cea=50;"
             f"peer:peer1.x,realm.local,{persistent},0,{wait},1,0,-,-,{p_dwa},{p_idle};app:4,1,0,b,0,0,-")
@@ -32,7 +37,9 @@ def oracle(line: str, obs: Obs):
         before = dict(state)
         if t[0] in ("adv", "advrx"):
             now += int(t[1])
-        if t[0] == "rx":
+        if t[0] == "req" and len(t) == 4:
+            now += int(t[3])            # (a request nobody answers: the sender sits out its timeout, then the timers are checked)
+        if t[0] in ("rx", "rxraw", "rxcut"):
             c = f"c{t[1]}"
             last_read[c] = now
         if t[0] == "advrx":
@@ -52,7 +59,7 @@ def oracle(line: str, obs: Obs):
         if t[0] == "acc" and not (set(state) - set(before)):
             fails.append({"what": "a connection arriving at the listening socket is not taken up any more (no watchdog can ever "
                                   "run on it)", "event": ev, "real": "no new connection after accept"})
-        if t[0] in ("adv", "tick", "advrx"):
+        if t[0] in ("adv", "tick", "advrx") or (t[0] == "req" and len(t) == 4):
             for c, st in before.items():
                 if t[0] == "advrx" and c == f"c{t[2]}":
                     continue            # (the connection that is being read: judged at the next timer check)
@@ -169,6 +176,23 @@ def scenarios(rng: random.Random, tier: str):
             line = cfg_line(idle, dwa, persistent=1)
             out.append(line + " | start ok | adv %d | rx 0 %s | adv %d | adv 1 | adv 1 | adv %d" %
                        (late, nodegen.cea(2001, "peer1.x", 2001, 268435464), idle - 1, dwa + 1))
+    # the peer is silent while the node itself keeps sending requests: what the node sends is not traffic received
+    for idle, dwa in ((5, 3), (4, 2)):
+        line = cfg_line(idle, dwa)
+        evs = ["start", "acc", "rx 0 " + nodegen.cer("peer1.x", "4", nxt(), nxt())]
+        for _ in range(idle + dwa + 3):
+            evs += [f"req 0 {nodegen.ccr(0, 0, 'node.local')} 1", "adv 1"]
+        out.append(line + " | " + " | ".join(evs))
+    # a long message trickling in, a few octets every second, for longer than the idle timeout: octets received are traffic
+    big = simmod_build(nodegen.ccr(nxt(), nxt(), "peer1.x"))
+    for idle, dwa in ((3, 2), (5, 3)):
+        line = cfg_line(idle, dwa)
+        evs = ["start", "acc", "rx 0 " + nodegen.cer("peer1.x", "4", nxt(), nxt())]
+        step = max(4, len(big) // (idle * 3 + 2))
+        for i in range(0, len(big), step):
+            evs += ["adv 1", f"rxraw 0 {big[i:i + step].hex()}"]
+        evs += ["adv 1", "adv 1", f"adv {idle}", f"adv {dwa + 1}"]
+        out.append(line + " | " + " | ".join(evs))
     # two connections: one keeps talking (every read finds the clock advanced, no pass without a ready socket), the other is
     # silent: it gets its DWR when its idle timeout has passed and is given up when no DWA comes
     two_cfg = ("NODE host=node.local;realm=realm.local;idle={i};dwa={d};cer=50;cea=50;"
